@@ -345,7 +345,7 @@ impl Check for C17 {
         ]
     }
     fn units(&self, tier: Tier) -> Vec<Unit> {
-        let mut u = vec![Unit::gen("gen", 16, tier.pick(6000, 150_000)), Unit::enumerate("fixed", 4)];
+        let mut u = vec![Unit::gen("gen", 16, tier.pick(6000, 60_000)), Unit::enumerate("fixed", 4)];
         if tier == Tier::Thorough {
             u.push(Unit::enumerate("miri", 16));
         }
